@@ -684,3 +684,11 @@ def d5_14(ctx):
                 ctx.violation(key, ret, f"`return {C}[{k}]` is reachable without the key being present or stored (path through lines {[x for x in lines if x][:12]}): KeyError for a definition the controller has")
     if n_sites == 0:
         ctx.undecided(ckey(lx.key, "memo"), lx.node, "no memoised lookup found (the definition caches are expected in _get_data_type / _get_structure_makeup)")
+
+
+# the type classes reads decode with (string capacity = structure size - 4, member records, offsets) are built here: the same
+# witnesses are obligations of C01 (a value is "exactly what the controller holds" only if the element stride is the controller's)
+from .driver import d5_18 as _d5_18  # noqa: E402
+
+rule("C01", "D1.20", "T-WITNESS", floor=6)(d5_13)
+rule("C01", "D1.21", "T-WITNESS", floor=6)(_d5_18)
